@@ -22,10 +22,11 @@ QueryCalls == {
     "digest_nonspecific", "digest_from_config", "sequential_digest", "get_cleavage_sites",
     "get_left_semi", "get_non_enzymatic", "m_serialize", "m_serialize_parts", "m_dict",
     "m_mod_dict", "m_copy", "m_strip", "m_slice", "m_shift", "m_shuffle_seed", "m_reverse",
-    "m_sort", "m_split", "m_count_residues", "m_condense_static", "m_is_subsequence",
-    "m_find_indices", "m_permutations", "m_product", "m_combinations", "m_combinations_wr",
-    "m_predicates", "m_get_internal", "mod_mass_list", "chem_mass_dict", "write_chem_formula",
-    "glycan_comp_dict", "isotopic_distribution", "estimate_comp",
+    "m_reverse_swap", "m_slice_prefix", "m_slice_suffix", "m_shift_zero", "digest_annotations",
+    "fragment_objects_seq", "m_sort", "m_split", "m_count_residues", "m_condense_static",
+    "m_is_subsequence", "m_find_indices", "m_permutations", "m_product", "m_combinations",
+    "m_combinations_wr", "m_predicates", "m_get_internal", "mod_mass_list", "chem_mass_dict",
+    "write_chem_formula", "glycan_comp_dict", "isotopic_distribution", "estimate_comp",
     "apply_isotope_mods_to_composition", "get_losses", "get_matched_indices", "match_spectra",
     "get_fragment_matches", "merge_isotopic_distributions", "parse_static_mods",
     "fix_list_of_mods", "create_annotation", "parse_text"
